@@ -12,7 +12,7 @@ import (
 
 const (
 	runsQuick    = 24000
-	runsThorough = 4000000
+	runsThorough = 2400000
 )
 
 var zoneNames = []string{"example.com", "example.org", "ex-3.net", "sub.example.com", "xn--bcher-kva.example", "a.b.c.test"}
